@@ -55,15 +55,7 @@ def build_cases(tr, mode):
                 d2 = d
             cases.append((s, -1, d2, p))
     # profiles on either side of every layout threshold that only larger databases reach, found by TLC (MC_Boundaries)
-    bcfgs = [("CJJ14.PiPtr", dict(sc.default_config("CJJ14.PiPtr"), param_B=1, param_b=16), 300),
-             ("CJJ14.Pi2Lev", dict(sc.default_config("CJJ14.Pi2Lev"), param_B=4, param_b=4, param_B_prime=4, param_b_prime=4), 80),
-             ("ANSS16.Scheme3", sc.default_config("ANSS16.Scheme3"), 300 if tr == "quick" else 1100),
-             ("CT14.Pi", sc.default_config("CT14.Pi"), 300 if tr == "quick" else 1100),
-             ("DP17.Pi", sc.default_config("DP17.Pi"), 300),
-             ("DP17.Pi", dict(sc.default_config("DP17.Pi"), param_L=2, param_actual_storage_level_ratio=0.5), 300),
-             ("CGKO06.SSE1", dict(sc.default_config("CGKO06.SSE1"), param_s=512, param_dictionary_size=16), 300)]
-    bcfgs.append(("CJJ14.PiBas", sc.default_config("CJJ14.PiBas"), 300))      # label counter passes 256
-    bcfgs.append(("CJJ14.PiPack", dict(sc.default_config("CJJ14.PiPack"), param_B=1), 300))
+    bcfgs = se.boundary_families(tr)
     if tr == "thorough":
         bcfgs.append(("CJJ14.PiBas", dict(sc.default_config("CJJ14.PiBas"), param_identifier_size=4), 65600))   # ... and 65536
         bcfgs.append(("CJJ14.Pi2Lev", sc.default_config("CJJ14.Pi2Lev"), 4200))
